@@ -163,8 +163,9 @@ def check_pty_close(c, f):
     marks = [m for m in g.nodes if m.kind == 'stmt' and (stmt_assigns_attr(m.ast, 'closed') is not None or stmt_assigns_attr(m.ast, 'child_fd') is not None)]
     exc_succ = [s2 for s2, l2 in n.succ if l2 in ('exc', 'raise')]
     wn = [x for x in g.nodes if x.kind == 'with' and any(n is y for y in g.reachable(x, skip_labels=('exc',)))]
-    reach_exc = g.reachable(exc_succ) if exc_succ else set()
-    bad = [m for m in marks if m in reach_exc]
+    # (a feasible path: a flag set only after the close returned -- `collected = True` -- keeps the marks out of reach of the failure path)
+    normal_out = set((n, l2) for s2, l2 in n.succ if l2 not in ('exc', 'raise'))
+    bad = [m for m in marks if exc_succ and g.path(g.entry, {m}, avoid_edges=normal_out, via={n}) is not None]
     c.check(not bad, f, bad[0].ast if bad else k, 'when ptyprocess.close() raises (the child could not be terminated) the object is NOT marked closed, '
             'so a later close(force=True) or the with-block exit still acts on the child', tag='failed-close-stays-open')
 
